@@ -10,6 +10,9 @@ import textlib as tl
 from core import run_models, wr_list
 from props import c09, c10
 
+# the thorough generators of this check take 4-10 minutes: a changed tree is explored with the quick ones (the stage
+# checks C07, C09, C10, C11, C01 and C12 escalate instead)
+ESCALATE = False
 RULE = ("X-pipeline: end-to-end runs  producer -> preprocess.filter_event_file -> io.events_from_file and "
         "count.cues_outcomes -> ndl.dict_ndl, ndl.ndl(threading), ndl.ndl(openmp) -> activation.activation  in ONE "
         "process per pipeline, every stage reading the file the previous stage left.  Producers: "
